@@ -108,7 +108,7 @@ def solution_level_after_diversify(case, detail, m):
                for n in notes)
 
 
-PREDICATES = {"marker_pin_only": marker_pin_only, "solution_level_after_diversify": solution_level_after_diversify}
+PREDICATES = {"marker_pin_only": marker_pin_only}
 
 
 
